@@ -302,6 +302,8 @@ def run_history(case, ctx: Ctx) -> None:
                 else:
                     raise InvalidCase()
                 levels = "+".join(str(nm[0]) for nm in names)
+                if kind in ("ctas", "create_view") and all(r[0] == "ok" for r in res) and (m.obj(res[1]) or {}).get("kind") == "view":
+                    continue  # sources of CTAS / views are tables only (keeps the row model simple); not executed
                 o = run(cur, sql)
                 errs = [r[0] for r in res if r[0] != "ok"]
                 if errs:
